@@ -385,3 +385,103 @@ Proof.
 Qed.
 
 End LoaderSafe.
+
+(* ================= the RDNSS / DNSSL lists of an accepted document fit their options ================= *)
+Definition iface_fits (i : iface) : Prop := i_rdnss i <= 127 /\ i_dnssl i <= 2032.
+Definition top_fits (t : top) : Prop := t_dns6 t <= 127 /\ t_dnssl t <= 2032 /\ Forall iface_fits (t_ifaces t).
+
+Section LoaderFits.
+Variable ip_parse : list N -> option ip.
+Variable ip4_parse : list N -> option N.
+Variable sock_ok : list N -> bool.
+
+Lemma rdnss_keys_le : forall h c n, c <= 127 -> rdnss_keys ip_parse h c = Ok n -> n <= 127.
+Proof.
+  induction h as [|[k v] h IH]; intros c n Hc; cbn [rdnss_keys]; intros H.
+  { inversion H; subst; exact Hc. }
+  destruct (key_str k) as [ks|]; [|exfalso; eapply type_error_not_ok; eassumption].
+  inv_all H; try (eapply IH; [|exact H]; first [exact Hc | lia]).
+  eapply IH; [|exact H]. match goal with E : (127 <? _) = false |- _ => apply N.ltb_ge in E; exact E end.
+Qed.
+Lemma dnssl_keys_le : forall h c n, c <= 2032 -> dnssl_keys h c = Ok n -> n <= 2032.
+Proof.
+  induction h as [|[k v] h IH]; intros c n Hc; cbn [dnssl_keys]; intros H.
+  { inversion H; subst; exact Hc. }
+  destruct (key_str k) as [ks|]; [|exfalso; eapply type_error_not_ok; eassumption].
+  inv_all H; try (eapply IH; [|exact H]; first [exact Hc | lia]).
+  eapply IH; [|exact H]. match goal with E : (2032 <? _) = false |- _ => apply N.ltb_ge in E; exact E end.
+Qed.
+
+Lemma interface_keys_fits : forall h i i', iface_fits i -> interface_keys ip_parse h i = Ok i' -> iface_fits i'.
+Proof.
+  induction h as [|[k v] h IH]; intros i i' Hi; cbn [interface_keys]; intros H.
+  { inversion H; subst; exact Hi. }
+  destruct (key_str k) as [ks|]; [|exfalso; eapply type_error_not_ok; eassumption].
+  inv_all H; try (eapply IH; [|exact H]; exact Hi); (eapply IH; [|exact H]); destruct Hi as [H1 H2]; split; cbn [i_rdnss i_dnssl]; try assumption.
+  - (* dns-servers *)
+    destruct v; simpl in Ha; try (exfalso; eapply type_error_not_ok; eassumption).
+    eapply rdnss_keys_le; [|exact Ha]. lia.
+  - (* dns-search *)
+    destruct v; simpl in Ha; try (exfalso; eapply type_error_not_ok; eassumption).
+    eapply dnssl_keys_le; [|exact Ha]. lia.
+Qed.
+Lemma parse_interface_fits : forall y i, parse_interface ip_parse y = Ok i -> iface_fits i.
+Proof.
+  intros y i H. destruct y; simpl in H; try (exfalso; eapply type_error_not_ok; eassumption).
+  apply obind_ok in H as [j [Hj H]].
+  assert (Hok : iface_fits j) by (eapply interface_keys_fits; [|exact Hj]; split; simpl; lia).
+  unfold interval_crosscheck in H. inv_all H; inversion H; subst; exact Hok.
+Qed.
+Lemma ra_interfaces_fits : forall h l, ra_interfaces ip_parse h = Ok l -> Forall iface_fits l.
+Proof.
+  induction h as [|[k v] h IH]; cbn [ra_interfaces]; intros l H.
+  { inversion H; constructor. }
+  destruct (key_str k); [|exfalso; eapply type_error_not_ok; eassumption].
+  apply obind_ok in H as [i [Hi H]]. apply obind_ok in H as [r [Hr H]]. inversion H; subst.
+  constructor; [|apply IH; exact Hr]. destruct v; eapply parse_interface_fits; eassumption.
+Qed.
+Lemma parse_ra_fits : forall y l, parse_ra ip_parse y = Ok l -> Forall iface_fits l.
+Proof.
+  intros y l H. destruct y; simpl in H; try discriminate; try (exfalso; eapply type_error_not_ok; eassumption).
+  eapply ra_interfaces_fits; eassumption.
+Qed.
+
+Lemma top_keys_fits : forall fuel h t t', top_fits t -> top_keys ip_parse ip4_parse sock_ok fuel h t = Ok t' -> top_fits t'.
+Proof.
+  intros fuel. induction h as [|[k v] h IH]; intros t t' Ht; cbn [top_keys]; intros H.
+  { inversion H; subst; exact Ht. }
+  destruct (key_str k) as [ks|]; [|exfalso; eapply type_error_not_ok; eassumption].
+  destruct Ht as [H6 [Hs Hi]].
+  inv_all H; try (exfalso; eapply type_error_not_ok; eassumption);
+    try (eapply IH; [|exact H]; repeat split; assumption);
+    (eapply IH; [|exact H]); unfold top_fits; cbn [t_dns6 t_dnssl t_ifaces]; repeat split; try assumption.
+  - (* router-advertisements *) eapply parse_ra_fits; eassumption.
+  - (* dns-servers *) match goal with E : (127 <? _) = false |- _ => apply N.ltb_ge in E; exact E end.
+  - (* dns-search *) match goal with E : (2032 <? _) = false |- _ => apply N.ltb_ge in E; exact E end.
+Qed.
+
+Lemma load_fits : forall fuel ndocs y t, load ip_parse ip4_parse sock_ok fuel ndocs y = Ok t -> top_fits t.
+Proof.
+  intros fuel ndocs y t H. unfold load in H. destruct (negb (ndocs =? 1)); [discriminate|].
+  destruct y; try discriminate. eapply top_keys_fits; [|exact H].
+  unfold top_fits, top0; simpl. repeat split; try lia. constructor.
+Qed.
+End LoaderFits.
+
+Lemma rdnss_optlen_total : forall n, n <= 127 -> np (rdnss_optlen n).
+Proof. intros n H. unfold rdnss_optlen. rewrite (proj2 (N.ltb_lt (1 + 2 * n) 256)) by lia. apply np_ok. Qed.
+Lemma dnssl_optlen_total : forall o, o <= 2032 -> np (dnssl_optlen o).
+Proof.
+  intros o H. unfold dnssl_optlen, add_chk, cast. change (pow2 8) with 256.
+  assert (Q : (o + 7) / 8 <= 254) by (apply N.lt_succ_r; apply N.div_lt_upper_bound; lia).
+  rewrite N.div_mul by lia. rewrite (N.mod_small ((o + 7) / 8) 256) by lia.
+  rewrite (proj2 (N.ltb_lt (1 + (o + 7) / 8) 256)) by lia. apply np_ok.
+Qed.
+Lemma fits_no_panic : forall t, top_fits t -> ra_lens_no_panic t = true.
+Proof.
+  intros t [H6 [Hs Hi]]. unfold ra_lens_no_panic. repeat (apply andb_true_iff; split).
+  - apply forallb_forall. intros i Hin. rewrite Forall_forall in Hi. destruct (Hi i Hin) as [A B].
+    rewrite (np_is_panic _ _ (rdnss_optlen_total _ A)), (np_is_panic _ _ (dnssl_optlen_total _ B)). reflexivity.
+  - rewrite (np_is_panic _ _ (rdnss_optlen_total _ H6)). reflexivity.
+  - rewrite (np_is_panic _ _ (dnssl_optlen_total _ Hs)). reflexivity.
+Qed.
